@@ -15,20 +15,24 @@ T2 = lambda z, rows: {"vi": [2.0, 6.0], "io": [0.01, 0.1, 0.5], z: [list(r) for 
 IG_T = [1e-3, T1("ig", [1e-4, 5e-4, 2e-3]), T2("ig", [[1e-4, 5e-4, 2e-3], [2e-4, 6e-4, 3e-3]])]
 # kind -> (section, mandatory {key: [forms]}, optional {key: [forms]})
 SCHEMA = {
-    "Source": ("source", {"vo": [5.0, 5, -12.0]}, {"rs": [0.3, 1]}),
-    "PLoad": ("pload", {"pwr": [0.2, 1, 0.0]}, {"pwrs": [0.01], "rt": [5.0, 3], "loss": [True]}),
-    "ILoad": ("iload", {"ii": [0.1, 1, 0.4e-9]}, {"iis": [0.01, 1.2e-10], "rt": [5.0], "loss": [True]}),
-    "RLoad": ("rload", {"rs": [40.0, 33]}, {"rt": [5.0], "loss": [True]}),
-    "RLoss": ("rloss", {"rs": [0.7, 1]}, {"rt": [5.0, 2]}),
-    "VLoss": ("vloss", {"vdrop": [0.3, 1, T1("vdrop", [0.1, 0.2, 0.3]), T2("vdrop", [[0.1, 0.2, 0.3], [0.15, 0.25, 0.35]])]}, {"rt": [5.0]}),
-    "Converter": ("converter", {"vo": [3.3, 3, -3.3], "eff": [0.85, T1("eff", [0.6, 0.8, 0.9]), T2("eff", [[0.6, 0.8, 0.9], [0.5, 0.7, 0.8]])]},
-                  {"iq": [1e-3, 0.35e-9], "iis": [1e-4], "rt": [5.0, 7]}),
-    "LinReg": ("linreg", {"vo": [3.3, 3]}, {"vdrop": [0.4], "ig": IG_T, "iq": [1.5e-3], "iis": [1e-4, 0.45e-9], "rt": [5.0]}),
-    "PSwitch": ("pswitch", {}, {"rs": [0.2, 1], "ig": IG_T, "iis": [1e-4], "rt": [5.0]}),
-    "PMux": ("pmux", {}, {"rs": [0.2, [0.2, 0.3], 1], "ig": IG_T, "iis": [1e-4], "rt": [5.0]}),
-    "Rectifier": ("rectifier", {"vdrop": [0.0, 0.3, 0, T1("vdrop", [0.1, 0.2, 0.3])]}, {"rs": [0.2], "ig": IG_T, "iq": [1e-4], "rt": [5.0]}),
+    # (forms after the first are alternatives: TOML integers, negative values, lists, tables, and the value that equals the documented DEFAULT / zero)
+    "Source": ("source", {"vo": [5.0, 5, -12.0]}, {"rs": [0.3, 1, 0.0]}),
+    "PLoad": ("pload", {"pwr": [0.2, 1, 0.0]}, {"pwrs": [0.01, 0.0], "rt": [5.0, 3, 0.0], "loss": [True, False]}),
+    "ILoad": ("iload", {"ii": [0.1, 1, 0.4e-9]}, {"iis": [0.01, 1.2e-10, 0.0], "rt": [5.0, 0.0], "loss": [True, False]}),
+    "RLoad": ("rload", {"rs": [40.0, 33]}, {"rt": [5.0, 0.0], "loss": [True, False]}),
+    "RLoss": ("rloss", {"rs": [0.7, 1, 0.0]}, {"rt": [5.0, 2, 0.0]}),
+    "VLoss": ("vloss", {"vdrop": [0.3, 1, T1("vdrop", [0.1, 0.2, 0.3]), T2("vdrop", [[0.1, 0.2, 0.3], [0.15, 0.25, 0.35]]), 0.0]}, {"rt": [5.0, 0.0]}),
+    "Converter": ("converter", {"vo": [3.3, 3, -3.3], "eff": [0.85, T1("eff", [0.6, 0.8, 0.9]), T2("eff", [[0.6, 0.8, 0.9], [0.5, 0.7, 0.8]]), 1.0]},
+                  {"iq": [1e-3, 0.35e-9, 0.0], "iis": [1e-4, 0.0], "rt": [5.0, 7, 0.0]}),
+    "LinReg": ("linreg", {"vo": [3.3, 3]}, {"vdrop": [0.4, 0.0], "ig": IG_T + [0.0], "iq": [1.5e-3], "iis": [1e-4, 0.45e-9, 0.0], "rt": [5.0, 0.0]}),
+    "PSwitch": ("pswitch", {}, {"rs": [0.2, 1, 0.0], "ig": IG_T + [0.0], "iis": [1e-4, 0.0], "rt": [5.0, 0.0]}),
+    "PMux": ("pmux", {}, {"rs": [0.2, [0.2, 0.3], 1, 0.0], "ig": IG_T + [0.0], "iis": [1e-4, 0.0], "rt": [5.0, 0.0]}),
+    "Rectifier": ("rectifier", {"vdrop": [0.0, 0.3, 0, T1("vdrop", [0.1, 0.2, 0.3])]}, {"rs": [0.2, 0.0], "ig": IG_T + [0.0], "iq": [1e-4, 0.0], "rt": [5.0, 0.0]}),
 }
 LIMITS = {"vi": [0.0, 4.0], "io": [0.0, 0.05], "pl": [0.0, 1e-4], "tp": [-40.0, 30.0]}
+# limit pairs as users of negative rails write them (smaller magnitude first = descending), reversed pairs, TOML integers
+LIMITS_ODD = [{"vi": [-3.0, -3.6], "vo": [-1.0, -6.0], "tp": [-40.0, 30.0]}, {"vi": [4.0, 0.5], "io": [0.05, 0.0], "tp": [30.0, -40.0]}, {"vi": [0, 4], "pl": [0, 1]}]
+NAMES_ODD = ["limits", "<section>", "source", "x.y", "X Y"]
 WRONG = {"str": "5.0", "bool": True, "list": [1.0, 2.0], "table": {"vi": [5.0], "io": [0.1, 0.2], "x": [[1.0, 2.0]]}, "int-for-bool": 1}
 
 
@@ -69,16 +73,16 @@ def write_toml(section, params, limits, extra_tables=False, permute=False, inlin
     return path
 
 
-def probe(kind, comp):
+def probe(kind, comp, name="X"):
     if kind == "Source":
         s = System("p", comp)
-        s.add_comp("X", comp=ILoad("L", ii=0.05))
+        s.add_comp(name, comp=ILoad("L", ii=0.05))
     else:
-        s = System("p", Source("S", vo=5.0, rs=0.1))
-        s.add_comp("S", comp=comp)
+        s = System("p", Source("S" if name != "S" else "S_", vo=5.0, rs=0.1))
+        s.add_comp("S" if name != "S" else "S_", comp=comp)
         if kind not in LOADS:
-            s.add_comp("X", comp=ILoad("L", ii=0.05))
-            s.add_comp("X", comp=PLoad("L2", pwr=0.02))
+            s.add_comp(name, comp=ILoad("L", ii=0.05))
+            s.add_comp(name, comp=PLoad("L2", pwr=0.02))
     pr = s.params(limits=True).astype(str).to_dict("records")
     try:
         df, _ = quiet_call(s.solve)
@@ -118,16 +122,19 @@ def check_case(case):
     res.stats["evaluations"] += 1
     if fam == "equiv":
         path = write_toml(section, P, L, extra_tables=case.get("extra", False), permute=case.get("permute", False), inline=case.get("inline", False))
+        nm = case.get("name", "X")
+        if nm == "<section>":
+            nm = section
         try:
-            c1 = KINDS[kind].from_file("X", fname=path)
+            c1 = KINDS[kind].from_file(nm, fname=path)
         except Exception as e:
-            res.v(("C13.loader-raises", kind, type(e).__name__), "P=%r L=%r: %s" % (P, L, e))
+            res.v(("C13.loader-raises", kind, type(e).__name__) + (("name=" + case["name"],) if case.get("name") else ()), "P=%r L=%r: %s" % (P, L, e))
             return res
         kw = copy.deepcopy(P)
         if L is not None:
             kw["limits"] = copy.deepcopy(L)
-        c2 = KINDS[kind]("X", **kw)
-        a, b = probe(kind, c1), probe(kind, c2)
+        c2 = KINDS[kind](nm, **kw)
+        a, b = probe(kind, c1, nm), probe(kind, c2, nm)
         if a[0] != b[0]:
             diff = [(k, x[k], y[k]) for x, y in zip(a[0], b[0]) for k in x if x[k] != y.get(k)]
             res.v(("C13.params-differ", kind, "+".join(sorted(set(d[0] for d in diff)))), "P=%r L=%r: %r" % (P, L, diff[:3]))
@@ -175,6 +182,16 @@ def gen_cases(tier):
                     yield dict(fam="equiv", kind=kind, P=P, L=L)
                 if r in (0, len(okeys)):
                     yield dict(fam="equiv", kind=kind, P=P, L=LIMITS, extra=True)
+        # odd limit pairs and component names that coincide with words of the file format
+        Pfull = dict(base)
+        Pfull.update({o: opt[o][0] for o in okeys})
+        for L in LIMITS_ODD:
+            yield dict(fam="equiv", kind=kind, P=Pfull, L=L)
+            yield dict(fam="equiv", kind=kind, P=dict(base), L=L)
+        for nm in NAMES_ODD:
+            yield dict(fam="equiv", kind=kind, P=Pfull, L=LIMITS, name=nm)
+            yield dict(fam="equiv", kind=kind, P=dict(base), L=None, name=nm)
+            yield dict(fam="equiv", kind=kind, P=Pfull, L=LIMITS, name=nm, extra=True)
         # every alternative form of every key, alone and with all optionals present
         for k, forms in list(mand.items()) + list(opt.items()):
             for fv in forms[1:]:
